@@ -126,6 +126,36 @@ def sequences(alpha, L):
     return rec([], frozenset())
 
 
+# ---- long sessions: the module of the prompt accumulates symbols line after line; sessions whose number of module-level symbols
+# crosses 255 / 256 (one-byte slot numbers, tables that are re-registered for every new line) and goes well beyond
+LONG_KS = [100, 240, 248, 250, 251, 252, 253, 254, 255, 256, 257, 258, 260, 300, 520]
+LONG_KINDS = ["let", "fn", "class", "mixed"]
+
+
+def long_session(kind, k, failing):
+    """(repl lines, file text): k declarations of one kind behind a class, an instance and a function, used before, in between and after"""
+    decl = {"let": lambda i: "let v%d = %d;" % (i, i), "fn": lambda i: "fn v%d() { return %d; }" % (i, i), "class": lambda i: "class V%d { get() { return %d; } }" % (i, i)}
+    use = {"let": lambda i: "v%d" % i, "fn": lambda i: "v%d()" % i, "class": lambda i: "V%d().get()" % i}
+    kind_of = lambda i: kind if kind != "mixed" else ("let", "fn", "class")[i % 3]
+    lines = [("class C { init() { self.n = 0; } tick() { self.n = self.n + 1; return self.n; } }",) * 2, ("let o = C();",) * 2,
+             ("fn tick() { return o.tick(); }",) * 2, ("print(tick());",) * 2]
+    for i in range(k):
+        d = decl[kind_of(i)](i)
+        lines.append((d, d))
+        if i % 40 == 39:
+            p = "print(tick(), %s);" % use[kind_of(i)](i)
+            lines.append((p, p))
+            if failing:
+                lines.append(("print(v%d + );" % i, ""))                 # does not compile
+                lines.append(("print(o.nothing_%d());" % i, ""))       # raises
+    last = k - 1
+    tail = ["print(tick());", "print(%s + %s);" % (use[kind_of(0)](0), use[kind_of(last)](last)),
+            "fn late() { return %s + %s; }" % (use[kind_of(last)](last), use[kind_of(1)](1)), "print(late());", "let after = 5;",
+            "print(after + %s);" % use[kind_of(0)](0), "class Late { m() { return %s; } }" % use[kind_of(last)](last), "print(Late().m(), tick());"]
+    lines += [(t, t) for t in tail]
+    return [a for a, _ in lines], "\n".join(b for _, b in lines if b) + "\n"
+
+
 class C19(Check):
     id = "C19"
     level = "exploration"
@@ -154,6 +184,12 @@ class C19(Check):
             plans = [(ALL, 5), (QUICK, 6), (IMPORTS, 6), (FIBERS, 7), (NESTED, 6)]
         else:
             plans = [(QUICK, 5), (IMPORTS, 5), (FIBERS, 6), (NESTED, 5)]
+        for kind in LONG_KINDS:
+            for k in LONG_KS:
+                if tier != "thorough" and kind != "let" and k not in (248, 252, 254, 255, 256, 257, 300):
+                    continue
+                for failing in (False, True):
+                    yield ("__long__", kind, k, failing)
         seen_upto = 0
         for alpha, L in plans:
             for seq in sequences(alpha, L):
@@ -167,11 +203,16 @@ class C19(Check):
             seen_upto = L
 
     def describe(self, spec):
+        if spec[0] == "__long__":
+            return "long session: a class, an instance, a function, then %d declarations (%s)%s, used in between and afterwards" % (spec[2], spec[1], " with lines that fail to compile and lines that raise in between" if spec[3] else "")
         return " / ".join(E[n][0] for n in spec)
 
     def build(self, spec):
-        lines = [E[n][0] for n in spec]
-        filetext = "\n".join(E[n][1] for n in spec if E[n][1]) + "\n"
+        if spec[0] == "__long__":
+            lines, filetext = long_session(spec[1], spec[2], spec[3])
+        else:
+            lines = [E[n][0] for n in spec]
+            filetext = "\n".join(E[n][1] for n in spec if E[n][1]) + "\n"
         files = dict(FILES)
         files["/v/main.lay"] = filetext
         return [{"repl": lines, "files": FILES, "entry": "/v/main.lay", "step_limit": 2000000},
@@ -179,7 +220,7 @@ class C19(Check):
 
     def judge(self, spec, ctx, rs):
         rp, fl = rs
-        cross = any(n in ("callgetx", "usefooA", "usefooB", "usepropA", "usepropB", "callinc", "usegood", "usegood2", "recv1", "recv2", "recv3", "recvself", "uselam", "usemeth", "uselam2", "uselamw", "uselamp", "uselamcls") for n in spec)
+        cross = spec[0] == "__long__" or any(n in ("callgetx", "usefooA", "usefooB", "usepropA", "usepropB", "callinc", "usegood", "usegood2", "recv1", "recv2", "recv3", "recvself", "uselam", "usemeth", "uselam2", "uselamw", "uselamp", "uselamcls") for n in spec)
         if fl.get("class") != "ok":
             v = Verdict(False, cross, "file-not-ok", "the file version did not run cleanly (model error?): class=%s err=%r" % (fl.get("class"), fl.get("err", "")[-300:]))
             v.extra["machinery"] = True
